@@ -1,6 +1,7 @@
 #!/bin/bash
 # development aid: all mirsym obligations of all properties (Kani skipped), one line each
 cd /verif
+export VERIF_EVIDENCE_DIR=/var/tmp/anemo-verif-matrix/evidence VERIF_REPLAY_DIR=/var/tmp/anemo-verif-matrix/replays; mkdir -p $VERIF_EVIDENCE_DIR $VERIF_REPLAY_DIR
 for id in C01 C02 C03 C04 C05 C06 C07 C09 C10 C11 C12 C13 C14 C15 C16 C17 C18 C19 C20; do
   VERIF_DEV_NO_KANI=1 ./check $id 2>&1 | grep -E "VIOLATED|INCONCLUSIVE |HELD on|internal error" | cut -c1-260 | sed "s/^/$id: /"
 done
